@@ -56,6 +56,17 @@ def gen_cases(tier):
 def spell(D, how, spin):
     if how == "dictperm":
         return {tuple(reversed(k)): v for k, v in D.items()}
+    if how == "dictdup":
+        # every term is split over TWO keys that denote the same monomial (so the raw dict has duplicate spellings)
+        out = {}
+        for k, v in D.items():
+            if not k:
+                out[k] = v
+                continue
+            alt = tuple(reversed(k)) if len(k) >= 2 else (k * 3 if spin else k * 2)
+            out[k] = v + 1
+            out[alt] = -1
+        return out
     out = {}
     for k, v in D.items():
         if not k:
@@ -110,7 +121,7 @@ def check(case, st):
     deg = max((len(k) for k in D0), default=0)
     if len(D0) - (() in D0) >= 1:
         st.nontrivial += 1
-    conts = list(gen.SPIN_CONTAINERS if spin else gen.BOOL_CONTAINERS) + ["dictperm", "dictrep"]
+    conts = list(gen.SPIN_CONTAINERS if spin else gen.BOOL_CONTAINERS) + ["dictperm", "dictrep", "dictdup"]
     if len(D0) >= 2:
         conts += ["PUSO-rev", "QUSO-rev"] if spin else ["PUBO-rev", "QUBO-rev"]     # same terms, opposite insertion order
     # user-chosen enumeration through the documented set_mapping / set_reverse_mapping
@@ -128,7 +139,7 @@ def check(case, st):
             if is_rev:
                 D = dict(reversed(list(D.items())))
             labels = gen.labels_for(sch, N)
-            M = spell(D, cont, spin) if cont in ("dictperm", "dictrep") else gen.build(cont, D)
+            M = spell(D, cont, spin) if cont in ("dictperm", "dictrep", "dictdup") else gen.build(cont, D)
             if setmap:
                 gen.permute_mapping(M, setmap)
             tsrc = rp.tt(D, labels, spin)
@@ -167,7 +178,7 @@ def check(case, st):
                     viol(fn, "value", "result %s is not the same function under 0<->1, 1<->-1" % short(dict(r)))
                 unchanged(fn)
 
-            if cont in ("dict", "dictperm", "dictrep"):
+            if cont in ("dict", "dictperm", "dictrep", "dictdup"):
                 continue
             # ------------------------------------------------------ exports
             if cont in ("QUBO", "QUBOMatrix"):
@@ -308,7 +319,7 @@ def check(case, st):
 
 def run(ctx):
     ctx.bounds = {"n": 3 if ctx.quick else 4, "coefs": COEFS if ctx.quick else (-2, 1, 3), "offsets": OFFSETS, "max_terms": 3,
-                  "containers": "all of DESIGN 2.4 + dictperm + dictrep", "schemes": list(gen.LABELLED_SCHEMES),
+                  "containers": "all of DESIGN 2.4 + raw dicts with permuted keys, repeated labels, and duplicate spellings of one monomial", "schemes": list(gen.LABELLED_SCHEMES),
                   "matrices": "all 2x2 over {-1,0,2}" if ctx.quick else "all 2x2 over {-1,0,2,0.5}; all 3x3 over {0,1,-2}"}
     ctx.rule = ("case = (kind, polynomial) checked in every container x spelling x label scheme x entry point x assignment; "
                 "or one family of square matrices; non-trivial = has a non-constant term")
